@@ -33,6 +33,21 @@ fn logical(seed: u64, i: usize) -> Vec<Node> {
     let db = rbx_reflection_database::get();
     let known = gen::known_props(db);
     let mut rng = StdRng::seed_from_u64(seed.wrapping_mul(1_000_003).wrapping_add(i as u64));
+    // every 20th case is a big one: hundreds of instances of a few unknown classes, dozens of SharedStrings
+    if i % 20 == 19 {
+        let n = rng.gen_range(180..320);
+        let mut nodes: Vec<Node> = Vec::new();
+        for k in 0..n {
+            let parent = if k == 0 || rng.gen_bool(0.4) { usize::MAX } else { rng.gen_range(0..k) };
+            let mut props = vec![("Number".to_string(), Variant::Int32(k as i32 * 257 - 9))];
+            if k % 3 == 0 {
+                props.push(("Blob".to_string(), Variant::SharedString(rbx_dom_weak::types::SharedString::new(format!("blob {}", k % 61).into_bytes()))));
+            }
+            let ref_targets = if k % 4 == 0 { vec![("Link".to_string(), Some(rng.gen_range(0..n)))] } else { Vec::new() };
+            nodes.push(Node { class: format!("VerifDetBig{}", k % 5), name: format!("B{}", k), parent, props, ref_targets });
+        }
+        return nodes;
+    }
     let n = rng.gen_range(1..8);
     let mut nodes: Vec<Node> = Vec::new();
     let types: Vec<_> = xml_types().into_iter().filter(|t| gen::BINARY_TYPES.contains(t)).collect();
